@@ -668,4 +668,99 @@ theorem bind_assoc' {α β γ} (m : M α) (f : α → M β) (g : β → M γ) :
 
 theorem pure_bind' {α β} (a : α) (f : α → M β) : (pure a : M α) >>= f = f a := rfl
 
+/-! ### operations that keep the set of namespaces (used to sequence two write phases) -/
+
+/-- every successful run of `m` leaves the existence of every namespace as it was -/
+def NsPreserving {α} (m : M α) : Prop :=
+  ∀ s s1 a, m s = (s1, .ok a) → ∀ x, (findNs s1 x).isSome = (findNs s x).isSome
+
+theorem exists_putNs (s : State) (n : Name) (r r' : NsRec) (hr : findNs s n = some r) (hname : r'.name = r.name)
+    (x : Name) : (findNs (putNs s n r') x).isSome = (findNs s x).isSome := by
+  by_cases heq : lower x = lower n
+  · rw [findNs_putNs_same s n x r r' hr hname heq]
+    have : findNs s x = findNs s n := by unfold findNs nameEq; rw [heq]
+    rw [this, hr]
+    rfl
+  · rw [findNs_putNs_other s n x r r' hr hname heq]
+
+theorem nsPreserving_inNs (n : Name) (w : NsRec → Except PyExc NsRec)
+    (hw : ∀ r r', w r = .ok r' → r'.name = r.name) : NsPreserving (inNs n w) := by
+  intro s s1 a h x
+  unfold inNs at h
+  cases hf : findNs s n with
+  | none => rw [hf] at h; cases h
+  | some r =>
+    rw [hf] at h
+    simp only at h
+    cases hwr : w r with
+    | error e => rw [hwr] at h; cases h
+    | ok r' =>
+      rw [hwr] at h
+      cases h
+      exact exists_putNs s n r r' hf (hw r r' hwr) x
+
+theorem nsPreserving_bind {α β} {m : M α} {f : α → M β} (hm : NsPreserving m) (hf : ∀ a, NsPreserving (f a)) :
+    NsPreserving (m >>= f) := by
+  intro s s1 b h x
+  rw [bind_apply] at h
+  revert h
+  cases hms : m s with
+  | mk s' r =>
+    cases r with
+    | error e => intro h; cases h
+    | ok a =>
+      intro h
+      rw [hf a s' s1 b h x, hm s s' a hms x]
+
+theorem nsPreserving_of_readOnly {α} {m : M α} (h : ReadOnly m) : NsPreserving m := by
+  intro s s1 a hs x
+  have := h s
+  rw [hs] at this
+  simp only at this
+  rw [this]
+
+theorem nsPreserving_ite {α} (c : Prop) [Decidable c] {a b : M α} (ha : NsPreserving a) (hb : NsPreserving b) :
+    NsPreserving (if c then a else b) := by
+  by_cases h : c <;> simp [h, ha, hb]
+
+theorem nsPreserving_forM_ {α} {f : α → M Unit} (hf : ∀ x, NsPreserving (f x)) : ∀ l, NsPreserving (forM_ f l)
+  | [] => nsPreserving_of_readOnly (readOnly_pure ())
+  | x :: xs => by
+    unfold forM_
+    exact nsPreserving_bind (hf x) (fun _ => nsPreserving_forM_ hf xs)
+
+/-- a loop of writes that always succeed in an existing namespace (delete-if-present) cannot fail when all its
+    namespaces exist - also when a namespace occurs twice -/
+theorem forM_total_ok (w : Name → NsRec → Except PyExc NsRec)
+    (hw : ∀ n r, ∃ r', w n r = .ok r' ∧ r'.name = r.name) :
+    ∀ (nss : List Name) (s : State), (∀ n ∈ nss, (findNs s n).isSome = true) →
+      ∃ s', forM_ (fun n => inNs n (w n)) nss s = (s', .ok ())
+  | [], s, _ => ⟨s, rfl⟩
+  | n :: rest, s, h => by
+    have hn := h n (List.mem_cons_self)
+    cases hf : findNs s n with
+    | none => rw [hf] at hn; cases hn
+    | some r =>
+      obtain ⟨r', hwr, hname⟩ := hw n r
+      have hstep : inNs n (w n) s = (putNs s n r', .ok ()) := by
+        unfold inNs; rw [hf]; simp only; rw [hwr]
+      have h' : ∀ m ∈ rest, (findNs (putNs s n r') m).isSome = true := by
+        intro m hm
+        rw [exists_putNs s n r r' hf hname m]
+        exact h m (List.mem_cons_of_mem _ hm)
+      obtain ⟨s', hs'⟩ := forM_total_ok w hw rest (putNs s n r') h'
+      refine ⟨s', ?_⟩
+      unfold forM_
+      rw [bind_apply, hstep]
+      exact hs'
+
+theorem instDeleteIfPresentR_total (k : PKey) (r : NsRec) :
+    ∃ r', instDeleteIfPresentR k r = .ok r' ∧ r'.name = r.name := by
+  unfold instDeleteIfPresentR
+  by_cases hi : hasInst r k = true
+  · obtain ⟨r', hr'⟩ := instDeleteR_ok k r hi
+    refine ⟨r', by simp only [hi, if_true]; exact hr', ?_⟩
+    exact keepsName_delete (fun _ => k) [] r r' hr'
+  · exact ⟨r, by simp only [hi]; rfl, rfl⟩
+
 end Pywbem.Model.Atomic
